@@ -12,6 +12,12 @@ import (
 )
 
 func main() {
+	// the repository needs go >= 1.25: use the pre-installed 1.26.8 toolchain
+	os.Setenv("PATH", "/opt/veriftools/go1.26.8/bin:"+os.Getenv("PATH"))
+	os.Setenv("GOTOOLCHAIN", "local")
+	os.Setenv("GOFLAGS", "-mod=mod")
+	os.Setenv("GOPROXY", "off")
+	os.Setenv("GOSUMDB", "off")
 	if len(os.Args) < 2 {
 		fmt.Fprintln(os.Stderr, "usage: govc <unit|check|replay|list> ...")
 		os.Exit(2)
@@ -168,5 +174,3 @@ func firstLines(s string, n int) string {
 	return strings.Join(ls, " | ")
 }
 
-func cmdCheck(args []string)  {}
-func cmdReplay(args []string) {}
